@@ -242,6 +242,8 @@ def cargo_tree(scr, slot, reqs, ws):
     d = scr.crate("tree%d" % slot, reqs)
     rc, out = core.sh(["cargo", "tree", "--offline", "--target", TARGET, "-e", "normal,build", "--prefix", "depth",
                        "--no-dedupe", "-f", "{p}|{f}"], cwd=d, timeout=300)
+    if rc == 124:
+        return None   # cargo did not answer in time (machine overloaded / package-cache lock): skipped, not compared
     if rc != 0:
         err = [l for l in out.splitlines() if l.startswith("error")]
         return "ERR:" + (err[0] if err else out.strip().splitlines()[-1] if out.strip() else "cargo tree failed")[:200]
@@ -273,7 +275,7 @@ def cargo_tree(scr, slot, reqs, ws):
 def cargo_check(scr, name, reqs, target_dir, jobs):
     d = scr.crate(name, reqs)
     t = time.time()
-    rc, out = core.sh(["cargo", "check", "--offline", "-j", str(jobs), "--message-format", "short"], cwd=d, timeout=2400,
+    rc, out = core.sh(["cargo", "check", "--offline", "-j", str(jobs), "--message-format", "short"], cwd=d, timeout=5400,
                       env={"CARGO_TARGET_DIR": target_dir, "RUSTFLAGS": "", "CARGO_INCREMENTAL": "0", "CARGO_PROFILE_DEV_DEBUG": "0"})
     errs = [l for l in out.splitlines() if re.search(r"\berror(\[E\d+\])?:", l)]
     if rc == 0:
